@@ -240,9 +240,15 @@ func (Engine) Run(c *simkit.Choices, x *simkit.Ctx) *simkit.Violation {
 	f := model.Formats[c.N(3)]
 	cd := common.ByName(f)
 	capacity := capacities[c.N(len(capacities))]
+	exactCap := c.N(4) == 0 // capacity = number of distinct keys (+-1), decided once the alphabet is known
 	target := targets[c.N(len(targets))]
 	te := model.TypeByName(target)
 	g := newKeyGen(c)
+	if exactCap {
+		if capacity = len(g.alpha) + c.N(3) - 1; capacity < 0 {
+			capacity = 0
+		}
+	}
 	nd := 1 + c.N(8)
 	if x.Thorough {
 		nd = 1 + c.N(16)
